@@ -11,6 +11,7 @@ SHAPES = {   # init, target
     "ffns-down": ((4.4, 4), (2.0, 4)),
     "vfns-up": ((2.5, 4), (8.0, 5)),
     "vfns-down": ((8.0, 5), (2.5, 4)),
+    "vfns-down-charm": ((3.0, 4), (1.3, 3)),   # downwards through the charm matching scale (1.51 GeV) into nf = 3
     "ffns5-up": ((6.0, 5), (14.0, 5)),     # a five-flavour segment (with QED: the down-type sectors of the unified basis)
 }
 NGRID = 24
@@ -92,7 +93,9 @@ def _toy(x, rng, pids, pol, qed):
     for q in (1, 2, 3, 4):
         s = sea(rng.uniform(0.1, 0.4))
         f[pids.index(-q)] = s
-        f[pids.index(q)] = s + (val(rng.uniform(1.0, 3.0)) if q <= 3 else 0.0)
+        # every quark carries a valence-like part (charm a small one): a flavour combination that is lost or
+        # mapped with the wrong number of flavours changes the numbers
+        f[pids.index(q)] = s + val(rng.uniform(1.0, 3.0) if q <= 3 else rng.uniform(0.3, 0.8))
     # a sizeable bottom content (about a sixth of the momentum), also where bottom is not active yet
     # (intrinsic): whatever a matching or a rotation does to the heavy-quark entries shows in the totals
     s = sea(rng.uniform(2.0, 3.0))
